@@ -648,7 +648,7 @@ func C06(run *mon.Run) {
 	var wg sync.WaitGroup
 	sem := make(chan struct{}, 16)
 	var pairs [][2]int
-	for n := 2; n <= 7; n++ {
+	for n := 2; n <= run.Pick(7, 9); n++ { // (the thorough tier goes to n = 9: 2^9 subsets per threshold)
 		for t := 1; t < n; t++ {
 			pairs = append(pairs, [2]int{n, t})
 		}
